@@ -13,6 +13,7 @@ import (
 	"encoding/binary"
 	"encoding/json"
 	"fmt"
+	"io"
 	"time"
 
 	"github.com/blevesearch/mmap-go"
@@ -136,6 +137,12 @@ func ScanFooter(options *StoreOptions, fref *FileRef, fileName string,
 	pos int64) (*Footer, error) {
 	footerBeg := make([]byte, footerBegLen)
 
+	finfo, err := fref.file.Stat()
+	if err != nil {
+		return nil, err
+	}
+	fileSize := finfo.Size()
+
 	// Align pos to the start of a page (floor).
 	pos = pageAlignFloor(pos)
 
@@ -145,8 +152,10 @@ func ScanFooter(options *StoreOptions, fref *FileRef, fileName string,
 				return nil, ErrNoValidFooter
 			}
 
+			// A file that ends inside its last page (a torn write) gives
+			// a short read, which just means no footer starts here.
 			n, err := fref.file.ReadAt(footerBeg, pos)
-			if err != nil {
+			if err != nil && err != io.EOF {
 				return nil, err
 			}
 
@@ -167,20 +176,31 @@ func ScanFooter(options *StoreOptions, fref *FileRef, fileName string,
 		if err := binary.Read(footerBegBuf, StoreEndian, &version); err != nil {
 			return nil, err
 		}
-		if version != StoreVersion {
-			return nil, fmt.Errorf("store: version mismatch, "+
-				"current: %v != found: %v", StoreVersion, version)
-		}
-
 		var length uint32
 		if err := binary.Read(footerBegBuf, StoreEndian, &length); err != nil {
 			return nil, err
 		}
 
+		if version != StoreVersion {
+			// The file's version was already verified via its header,
+			// so these are key-val bytes that look like a footer's
+			// beginning; keep scanning.
+			pos -= int64(StorePageSize)
+			continue
+		}
+
+		if int64(length) < int64(footerBegLen+footerEndLen) ||
+			pos+int64(length) > fileSize {
+			// The footer was not completely written (or these bytes
+			// only look like the beginning of one), so keep scanning.
+			pos -= int64(StorePageSize)
+			continue
+		}
+
 		data := make([]byte, int64(length)-int64(footerBegLen))
 
 		n, err := fref.file.ReadAt(data, pos+int64(footerBegLen))
-		if err != nil {
+		if err != nil && err != io.EOF {
 			return nil, err
 		}
 
@@ -195,18 +215,16 @@ func ScanFooter(options *StoreOptions, fref *FileRef, fileName string,
 			if err = binary.Read(b, StoreEndian, &offset); err != nil {
 				return nil, err
 			}
-			if offset != pos {
-				return nil, fmt.Errorf("store: offset mismatch, "+
-					"wanted: %v != found: %v", offset, pos)
-			}
 
 			var length1 uint32
 			if err = binary.Read(b, StoreEndian, &length1); err != nil {
 				return nil, err
 			}
-			if length1 != length {
-				return nil, fmt.Errorf("store: length mismatch, "+
-					"wanted: %v != found: %v", length1, length)
+
+			if offset != pos || length1 != length {
+				// Not the end of the footer that begins at pos.
+				pos -= int64(StorePageSize)
+				continue
 			}
 
 			f := &Footer{refs: 1, fileName: fileName, filePos: offset}
